@@ -70,7 +70,7 @@ def _float(x=0.0):
             return builtins.float(p)
         if 'float' in STUBS:
             return STUBS['float'](x)
-        raise Unsupported('float() of a symbolic string (no stub installed)')
+        return builtins.float(conc_value(x))
     if builtins.isinstance(x, SymInt):
         return x
     return builtins.float(x)
@@ -195,6 +195,41 @@ def _str_eq_family(self, *a, **k):
     raise Unsupported('str method on symbolic argument')
 
 
+CONC_LIMIT = 700        # exhaustive forking over a symbolic character is attempted only for domains up to this size
+
+
+def conc_value(x, depth=3):
+    """concrete value of a proxy by exhaustive forking over its feasible values (small domains only)"""
+    if builtins.isinstance(x, SymStr):
+        ex = core.cur()
+        chars = [c if builtins.isinstance(c, int) else ex.concretize(c, CONC_LIMIT) for c in x.c]
+        plain = ''.join(map(chr, chars))
+        return plain if type(x) is SymStr else type(x)(plain)
+    if builtins.isinstance(x, SymInt):
+        return core.cur().concretize(x.t, CONC_LIMIT)
+    if builtins.isinstance(x, SymBool):
+        return bool(x)
+    if depth and builtins.isinstance(x, list):
+        return [conc_value(y, depth - 1) for y in x]
+    if depth and builtins.isinstance(x, tuple):
+        return tuple(conc_value(y, depth - 1) for y in x)
+    if depth and builtins.isinstance(x, dict):
+        return dict((k, conc_value(y, depth - 1)) for k, y in x.items())
+    return x
+
+
+def conc_call(fn, args, kw, why):
+    """no shim for this callee: concretise the symbolic arguments by exhaustive forking (sound, small domains only;
+    raises Unsupported when a domain is too large) and make the original call"""
+    args2 = [conc_value(a) for a in args]
+    kw2 = dict((k, conc_value(v)) for k, v in kw.items())
+    CONC_CALLS.add(why)
+    return fn(*args2, **kw2)
+
+
+CONC_CALLS = set()
+
+
 def sx_call(fn, *args, **kw):
     # 1. nothing symbolic: the original call
     self_ = getattr(fn, '__self__', None)
@@ -223,7 +258,7 @@ def sx_call(fn, *args, **kw):
         if builtins.isinstance(self_, (SymStr, SymInt, SymBool, SymReal)):
             return fn(*args, **kw)          # method of a proxy: implemented by the proxy itself
         if builtins.isinstance(self_, (str, bytes, bytearray, re.Pattern, re.Match)):
-            raise Unsupported('%s.%s with a symbolic argument' % (type(self_).__name__, name))
+            return conc_call(fn, args, kw, '%s.%s with a symbolic argument' % (type(self_).__name__, name))
     # 3. python-level callables of hszinc itself (instrumented) and a few pure-python helpers
     mod = getattr(fn, '__module__', None) or ''
     if builtins.isinstance(fn, (types.FunctionType, types.MethodType, functools_partial)) or builtins.isinstance(fn, type):
@@ -236,11 +271,11 @@ def sx_call(fn, *args, **kw):
         if builtins.isinstance(fn, type) and mod == 'builtins':
             if fn in (list, tuple, dict, set, frozenset, bool, map, zip, enumerate, reversed, filter, range, slice, object, type, super):
                 return fn(*args, **kw)
-            raise Unsupported('builtins.%s of a symbolic value' % fn.__name__)
+            return conc_call(fn, args, kw, 'builtins.%s of a symbolic value' % fn.__name__)
         st = STUBS.get('%s.%s' % (mod, getattr(target, '__qualname__', name)))
         if st is not None:
             return st(*args, **kw)
-        raise Unsupported('call of %s.%s with a symbolic argument (uninstrumented code)' % (mod, getattr(target, '__qualname__', name)))
+        return conc_call(fn, args, kw, 'call of %s.%s with a symbolic argument (uninstrumented code)' % (mod, getattr(target, '__qualname__', name)))
     # 4. builtin functions / methods of builtin containers
     if builtins.isinstance(fn, (types.BuiltinFunctionType, types.BuiltinMethodType, types.MethodWrapperType, types.MethodDescriptorType, types.WrapperDescriptorType)):
         if self_ is None or builtins.isinstance(self_, types.ModuleType):
@@ -249,7 +284,7 @@ def sx_call(fn, *args, **kw):
             st = STUBS.get('%s.%s' % (mod, name))
             if st is not None:
                 return st(*args, **kw)
-            raise Unsupported('builtin %s.%s with a symbolic argument' % (mod, name))
+            return conc_call(fn, args, kw, 'builtin %s.%s with a symbolic argument' % (mod, name))
         if builtins.isinstance(self_, (list, dict, tuple, set, frozenset, pp.ParseResults, BaseException, super)) or self_ is builtins.object:
             return fn(*args, **kw)
         if builtins.isinstance(self_, type):
@@ -257,13 +292,13 @@ def sx_call(fn, *args, **kw):
             st = STUBS.get('%s.%s' % (self_.__name__, name))
             if st is not None:
                 return st(*args, **kw)
-            raise Unsupported('%s.%s with a symbolic argument' % (self_.__name__, name))
-        raise Unsupported('method %s of %s with a symbolic argument' % (name, type(self_).__name__))
+            return conc_call(fn, args, kw, '%s.%s with a symbolic argument' % (self_.__name__, name))
+        return conc_call(fn, args, kw, 'method %s of %s with a symbolic argument' % (name, type(self_).__name__))
     if callable(fn):
         mod = getattr(type(fn), '__module__', '')
         if mod.startswith(SAFE_MODULE_PREFIXES) or mod.startswith('functools'):
             return fn(*args, **kw)
-    raise Unsupported('call of %r with a symbolic argument' % (fn,))
+    return conc_call(fn, args, kw, 'call of %r with a symbolic argument' % (fn,))
 
 
 import functools as _functools
